@@ -229,6 +229,8 @@ func C04(p *core.Program, r *core.Report) {
 
 	// ---- V2
 	checkWholesaleCopies(p, r, "V2")
+	checkPicturePruning(p, r, "V2")
+	checkPicturePruning(p, r, "V2")
 
 	// ---- V3
 	if iv := mustInl(p, r, "V3", domutilPkg+".IsProbablyVisible"); iv != nil {
